@@ -58,7 +58,7 @@ MAXLOCK = 2 ** 25 - 2
 FILES = ['LK.DAT', 'LM.DAT']
 RECLEN = 4
 
-K_CONTAIN = 'lock.contains-held-accepted'
+K_CONTAIN = 'lock.containing-accepted'
 
 REG_CONTAIN = {'known': True, 'ops': [
     {'o': 'open', 'n': 0, 'f': 0, 'mode': 'R', 'acc': '', 'lock': '', 'lc': False},
@@ -584,7 +584,7 @@ def units(tier):
     # VERIF_DIV=n runs 1/n of the examples (same seeds, i.e. a prefix): used for mutation runs only
     div = max(1, int(os.environ.get('VERIF_DIV', '1')))
     return [
-        Unit('histories', 'hyp', shards=16, examples={'quick': 200 // div, 'thorough': 6000 // div},
+        Unit('histories', 'hyp', shards=16, examples={'quick': 200 // div, 'thorough': 3500 // div},
              strategy=lambda: strat_case(maxops)),
     ]
 
@@ -621,4 +621,18 @@ REGRESSIONS = [
     ]},
 ]
 
-KILLS = []
+KILLS = [
+    'Locks._try_record_lock: endpoint-only overlap test restored (pre-4d4fdd37)  => ./check red: lock.containing-accepted (regression)',
+    "overlap test: 'stop >= start_1' dropped => lock.spurious-denial, access.unlocked-refused ; 'start <= stop_1' dropped => same",
+    'overlap test: start <= stop_1 -> start < stop_1  => lock.overlap-accepted, access.locked-record-allowed',
+    'acquire_record_lock: allow_self=False -> True  => lock.overlap-accepted, lock.containing-accepted',
+    'try_record_access: allow_self=True -> False  => access.unlocked-refused',
+    'release_record_lock: UNLOCK by overlap instead of equality  => unlock.inexact-accepted',
+    'open_file: OUTPUT/APPEND of an open file no longer refused  => open.accepted.output-of-open-file',
+    'LockingParameters.name not upper-cased  => lock.overlap-accepted, open.accepted.*',
+    'whole-file request ignores held ranges  => lock.overlap-accepted ; TextFile.lock keeps the bounds => state.lockset',
+    '_get_lock_limits: single record locks (a, a+1)  => state.lockset, lock.spurious-denial ; limit 2**25-2 -> 2**25 => lock.range-check',
+    'open_file: default-vs-clause test dropped  => open.accepted.default-vs-sharing-clause',
+    'RandomFile.put checks record+1 for locks  => access.locked-record-allowed, access.unlocked-refused',
+    "SURVIVED (equivalent): open_file '(lock_type == RW)' disjunct dropped - the LOCK x ACCESS disjunct refuses the same opens because access defaults to RW whenever a lock clause is given",
+]
